@@ -474,7 +474,7 @@ class IncompleteHashTree(CompleteBinaryTreeMixin, list):
                     this_level.discard(siblingnum)
             # we're done!
 
-        except (BadHashError, NotEnoughHashesError):
+        except (BadHashError, NotEnoughHashesError, IndexError):
             for i in remove_upon_failure:
                 self[i] = None
             raise
